@@ -18,7 +18,6 @@ import (
 	"github.com/elastic/go-ucfg/parse"
 )
 
-
 func unpackGeneric(c *ucfg.Config, opts ...ucfg.Option) string {
 	var m map[string]interface{}
 	if err := c.Unpack(&m, opts...); err != nil {
@@ -91,16 +90,16 @@ type confStruct struct {
 	G     time.Duration          `config:"g"`
 	H     float64
 	I     uint8
-	J     bool                   `config:"j.k"`
-	Inl   confInner              `config:",inline"`
-	Ign   int                    `config:",ignore"`
+	J     bool      `config:"j.k"`
+	Inl   confInner `config:",inline"`
+	Ign   int       `config:",ignore"`
 	priv  int
-	Arr   [2]string              `config:"arr"`
-	Re    *regexp.Regexp         `config:"re"`
-	L     []confInner            `config:"l"`
-	M     map[string]confInner   `config:"m"`
-	Cfg   *ucfg.Config           `config:"cfg"`
-	Iface interface{}            `config:"iface"`
+	Arr   [2]string            `config:"arr"`
+	Re    *regexp.Regexp       `config:"re"`
+	L     []confInner          `config:"l"`
+	M     map[string]confInner `config:"m"`
+	Cfg   *ucfg.Config         `config:"cfg"`
+	Iface interface{}          `config:"iface"`
 }
 
 func Conf_newfrom() string {
@@ -517,7 +516,7 @@ func Conf_numeric() string {
 		i, e1 := c.Int("f", -1)
 		u, e2 := c.Uint("f", -1)
 		var t struct {
-			F8  int8          `config:"f"`
+			F8 int8 `config:"f"`
 		}
 		var t2 struct {
 			F time.Duration `config:"f"`
